@@ -892,7 +892,9 @@ else:
             if separators is None:
                 separators = (",", ":")
 
-            return json.dumps(data, indent=indent, separators=separators, default=str)
+            # (no default=str: a value without a JSON image must make this raise,
+            # as it does under Pydantic, not go out replaced by its repr)
+            return json.dumps(data, indent=indent, separators=separators)
 
         def model_dump_mcp(self, **kwargs) -> Dict[str, Any]:
             """Convenience method for MCP compatibility."""
